@@ -3292,6 +3292,10 @@ class StateEngine(object):
                                      str(min(end + max_concurrency, len(result))),
                         }
 
+                        # The Map state's own retry fields, not those that the
+                        # last state of the iteration happened to have.
+                        context_state.pop("RetryCount", None)
+                        context_state.pop("RetryTimeout", None)
                         if retry_count:
                             context_state["RetryCount"] = retry_count
                         if retry_timeout:
@@ -3368,6 +3372,13 @@ class StateEngine(object):
                 """
                 event["data"] = data
 
+                """
+                The Retry of the Map or Parallel state counts its own retries,
+                which were saved when it launched its branches, so drop any
+                RetryCount that the failing state of the branch had.
+                """
+                context_state.pop("RetryCount", None)
+                context_state.pop("RetryTimeout", None)
                 if retry_count:
                     context_state["RetryCount"] = retry_count
                 if retry_timeout:
